@@ -34,10 +34,13 @@ const (
 	OpAcquire   OpKind = "sem.acquire"
 	OpEnv       OpKind = "env"
 	OpBlockForever OpKind = "block"
+	OpIdle         OpKind = "idle"
 )
 
 // thread is one cooperative thread.
 type thread struct {
+	lastRun int // step at which the thread was last scheduled
+	idleAt  int // step at which the thread parked in Quiesce
 	id      int
 	name    string
 	wake    chan struct{}
@@ -64,6 +67,7 @@ type op struct {
 
 // Choice is one entry of the enabled set at a scheduling point.
 type Choice struct {
+	Kind   OpKind
 	Thread int    // thread id, or -1 for an environment event
 	Env    string // name of the environment event
 	Label  string
@@ -255,7 +259,7 @@ func (r *runtimeState) enabledLocked(t *thread) (bool, []int) {
 		return true, nil
 	}
 	switch o.kind {
-	case OpStart, OpTryLock, OpSleep, OpPoint, OpClose:
+	case OpStart, OpTryLock, OpSleep, OpPoint, OpClose, OpIdle:
 		return true, nil
 	case OpLock:
 		return !o.obj.(*MutexState).locked, nil
@@ -318,23 +322,47 @@ func (r *runtimeState) scheduleLocked(from *thread) {
 			if len(cases) == 1 {
 				c = cases[0]
 			}
-			enabled = append(enabled, Choice{Thread: t.id, Label: string(t.op.kind) + " " + t.op.label, Case: c})
+			enabled = append(enabled, Choice{Kind: t.op.kind, Thread: t.id, Label: string(t.op.kind) + " " + t.op.label, Case: c})
 			picks = append(picks, pick{t: t, cas: c})
 			return true
 		}
 		for _, c := range cases {
-			enabled = append(enabled, Choice{Thread: t.id, Label: fmt.Sprintf("%s %s case %d", t.op.kind, t.op.label, c), Case: c})
+			enabled = append(enabled, Choice{Kind: t.op.kind, Thread: t.id, Label: fmt.Sprintf("%s %s case %d", t.op.kind, t.op.label, c), Case: c})
 			picks = append(picks, pick{t: t, cas: c})
 		}
 		return true
 	}
 	// canonical order: the thread that reached the point first (if still enabled), then ascending ids, then env events
 	runningEnabled := false
-	if from != nil && !from.done {
+	lazy := func(t *thread) bool { return t.op != nil && !t.op.completed && (t.op.kind == OpSleep || t.op.kind == OpIdle) }
+	if from != nil && !from.done && !lazy(from) {
 		runningEnabled = add(from)
 	}
 	for _, t := range r.threads {
-		if t == from || t.done || t.op == nil {
+		if t == from || t.done || t.op == nil || lazy(t) {
+			continue
+		}
+		add(t)
+	}
+	// sleeping and idling threads come last. An idling thread (Quiesce) continues only when nothing else can run
+	// and every sleeper has run at least once since it went idle (so that a polling loop sees what the idler did).
+	busy := len(enabled) > 0
+	for _, t := range r.threads {
+		if t.done || t.op == nil || !lazy(t) || t.op.kind != OpIdle || busy {
+			continue
+		}
+		ready := true
+		for _, s := range r.threads {
+			if !s.done && s.op != nil && !s.op.completed && s.op.kind == OpSleep && s.lastRun <= t.idleAt {
+				ready = false
+			}
+		}
+		if ready {
+			add(t)
+		}
+	}
+	for _, t := range r.threads {
+		if t.done || t.op == nil || !lazy(t) || t.op.kind != OpSleep {
 			continue
 		}
 		add(t)
@@ -410,6 +438,7 @@ func (r *runtimeState) scheduleLocked(from *thread) {
 	}
 	t := p.t
 	r.performLocked(t, p.cas)
+	t.lastRun = r.res.Steps
 	r.current = t
 	t.wake <- struct{}{}
 }
@@ -432,6 +461,9 @@ func park(o *op) {
 	}
 	epoch := t.epoch
 	t.op = o
+	if o.kind == OpIdle {
+		t.idleAt = rs.res.Steps
+	}
 	rs.scheduleLocked(t)
 	rs.mu.Unlock()
 	<-t.wake
@@ -596,4 +628,24 @@ func (r *runtimeState) waitForeignLocked() bool {
 		st.buf = append(st.buf, v.Interface())
 	}
 	return true
+}
+
+// Quiesce parks the calling thread until no other thread can make progress (sleepers excepted).
+func Quiesce() {
+	park(&op{kind: OpIdle, label: "quiesce"})
+}
+
+// FireTimers fires every armed virtual timer now (the harness's "wait for the timeout").
+func FireTimers() int {
+	rs.mu.Lock()
+	defer rs.mu.Unlock()
+	n := 0
+	for _, t := range rs.timerEventsLocked() {
+		if t.ticker {
+			continue
+		}
+		rs.fireTimerLocked(t)
+		n++
+	}
+	return n
 }
